@@ -67,7 +67,7 @@ def ptry(sdir, name, props, tier="quick"):
             sh(f"mkdir -p {base}/verif/harness/target && rsync -a /verif/harness/target/ {base}/verif/harness/target/; cp /verif/harness/Cargo.lock {base}/verif/harness/")
         sh(f"sed -i 's#path = \"/repo\"#path = \"{base}/repo\"#' {base}/verif/harness/Cargo.toml")
         for p in props:
-            rc, o = sh(f"./check {p} --tier {tier} 2>&1 | tail -8", cwd=f"{base}/verif")
+            rc, o = sh(f"./check {p} --tier {tier} > /tmp/pv-{name}-{p}.full 2>&1; grep -v -E '^(Line|The error|[0-9]+\\.) ' /tmp/pv-{name}-{p}.full | tail -12", cwd=f"{base}/verif")
             viol = "VIOLATION" in o
             res[p] = viol
             print(f"== {p}: {'CAUGHT' if viol else 'missed'}\n{o[-900:]}")
